@@ -29,6 +29,8 @@ func main() {
 		os.Exit(cmdExplain(os.Args[2:]))
 	case "guards":
 		os.Exit(cmdGuards(os.Args[2:]))
+	case "sizes":
+		os.Exit(cmdSizes(os.Args[2:]))
 	case "atoms":
 		os.Exit(cmdAtoms(os.Args[2:]))
 	case "enums":
@@ -65,7 +67,15 @@ func loadFor(repo string, s *spec.Spec, tags []string, env []string, overlay map
 		}
 		res, err := load.Load(load.Config{Dir: dir, Patterns: l.Patterns, Tags: tags, Env: env, Overlay: overlay})
 		if err != nil {
-			return nil, nil, err
+			// The fast path needs compiled export data of the dependencies
+			// (go list -export). If that fails for an environmental reason
+			// (cold or unwritable build cache) fall back to type-checking
+			// every dependency from source, which compiles nothing.
+			res2, err2 := load.Load(load.Config{Dir: dir, Patterns: l.Patterns, Tags: tags, Env: env, Overlay: overlay, AllDeps: true})
+			if err2 != nil {
+				return nil, nil, err
+			}
+			res = res2
 		}
 		loads = append(loads, res)
 		var roots []string
@@ -425,6 +435,30 @@ func cmdAtoms(args []string) int {
 			if c != "" && re.MatchString(c) {
 				fmt.Printf("%s %s: %s\n", f.ID, f.Where(v.Pos()), c)
 			}
+		}
+	}
+	return 0
+}
+
+// cmdSizes prints the size-deciding sites of the packages: lndlint sizes [-dir d] <patterns>
+func cmdSizes(args []string) int {
+	fs := flag.NewFlagSet("sizes", flag.ExitOnError)
+	repo := fs.String("repo", "/repo", "repository root")
+	dir := fs.String("dir", "", "module sub-directory")
+	fs.Parse(args)
+	d := *repo
+	if *dir != "" {
+		d += "/" + *dir
+	}
+	res, err := load.Load(load.Config{Dir: d, Patterns: strings.Split(fs.Arg(0), ",")})
+	if err != nil {
+		fmt.Fprintln(os.Stderr, err)
+		return 2
+	}
+	prog := an.NewProg(res)
+	for _, f := range prog.Funcs(false) {
+		for _, s := range f.SizeSites() {
+			fmt.Printf("%-8s %-8s %s %s: %s  [%s] bound=%s\n", s.Class, s.Kind, f.ID, f.Where(s.Node.Pos()), an.Text(s.Node), s.Why, s.Bound)
 		}
 	}
 	return 0
